@@ -5,18 +5,18 @@ From Coq Require Import List ZArith Bool String.
 Import ListNotations.
 Require Import DH.C07_Repro.Model DH.C07_Repro.Keys DH.C07_Repro.Lemmas.
 Require DH.Generated.Facts_C07.
-Module F := DH.Generated.Facts_C07.
+(* no module alias (coqchk 8.16 raises an anomaly on aliases of library modules): qualified names are used *)
 Open Scope Z_scope.
 
-Definition nsites : list site := map num_site F.rng_sites.
-Definition nenv : list esite := map num_env F.env_sites.
-Definition wfacts : world := world_of_facts F.cbo_opt_kwargs F.sample_max_size_default.
+Definition nsites : list site := map num_site DH.Generated.Facts_C07.rng_sites.
+Definition nenv : list esite := map num_env DH.Generated.Facts_C07.env_sites.
+Definition wfacts : world := world_of_facts DH.Generated.Facts_C07.cbo_opt_kwargs DH.Generated.Facts_C07.sample_max_size_default.
 
 (* the translator's own obligation: it recognised every shape (fail closed otherwise), and the numeric copies it derived from
    the tables of Keys.v are the ones Coq computes from the string facts *)
 Lemma sites_complete :
-  F.srcfacts_ok = true /\ map site_triple nsites = F.rng_sites_num /\ map esite_quad nenv = F.env_sites_num /\
-  w_sample_possible wfacts = F.world_num.
+  DH.Generated.Facts_C07.srcfacts_ok = true /\ map site_triple nsites = DH.Generated.Facts_C07.rng_sites_num /\ map esite_quad nenv = DH.Generated.Facts_C07.env_sites_num /\
+  w_sample_possible wfacts = DH.Generated.Facts_C07.world_num.
 Proof. vm_compute. repeat split; reflexivity. Qed.
 
 Ltac by_cases c :=
